@@ -419,6 +419,12 @@ bool Instance::configure_tx_txin() {
                 fprintf(stderr, "sig script must be exactly a push of the witness program (witness malleated): %s\n", HexStr(scriptSig).c_str());
                 return false;
             }
+            // only a pay-to-script-hash output can wrap a witness program: anything else that merely starts like one
+            // (HASH160 <x> EQUAL NOP, HASH160 <21 bytes> EQUAL, ...) is a plain script, and a witness is unexpected for it
+            if (!scriptPubKey.IsPayToScriptHash()) {
+                fprintf(stderr, "unexpected witness: the script pub key is neither a witness program nor pay-to-script-hash: %s\n", HexStr(scriptPubKey).c_str());
+                return false;
+            }
             validation = CScript(pushval.begin(), pushval.end());
             hashsrc = Value(pushval);
             CScript::const_iterator it = scriptPubKey.begin();
